@@ -5,7 +5,7 @@ import json, os, subprocess
 V = os.path.dirname(os.path.abspath(__file__))
 
 CLAIMED = {
- "C01": ("The real verifyConsensusFieldMain -> VrfVerifyPriority -> verifyVotes (BLS branch) on an arbitrary decoded header over a symbolic two-validator look-back set with signature / VRF / seat / quorum oracles: acceptance implies the mathematical weight of distinct eligible signers with protocol-valid sortition reaches the protocol's quorum, and the proposer credential used the protocol's threshold.",
+ "C01": ("The real verifyConsensusFieldMain -> VrfVerifyPriority -> verifyVotes (BLS branch) on an arbitrary decoded header over a symbolic two-validator look-back set with signature / VRF / seat / quorum oracles: acceptance implies the mathematical weight of distinct eligible signers with protocol-valid sortition reaches the protocol's quorum, and the proposer credential used the protocol's threshold; the branch without BLS (signer = recovered secp256k1 key); the real float64 OverThreshold against the rational quorum fractions.",
          "Trusted: gosym, z3; crypto idealised; two validators, up to two votes (three in zzH_C01_votes3), EnableBls; certificate branch outside. Two open known findings (header-chosen thresholds, voter eligibility).",
          "solver-based symbolic execution of go/ssa (bv) with uninterpreted crypto oracles"),
  "C02": ("Bounded symbolic history (vote attempts with symbolic kind/round/index, context changes, crash+restart on the same database) over the real VoteDB code; a ghost list of signed votes decides 'at most one per kind, round, index'; the real Voter.vote over it with every database write a possible kill point: at most one vote of a kind leaves the node per round and index.",
@@ -14,14 +14,14 @@ CLAIMED = {
  "C03": ("Tally and escalation kernels: bounded symbolic vote histories over the real VoteSta against 'first votes of non-equivocating senders'; one step of the real judgeVoteCount from an arbitrary voter state (precommit only on a prevote quorum, certificate vote / commit only with every required quorum); the real float64 OverThreshold against the rational fractions 0.685 T / 0.585 T in the FloatingPoint theory (reaching the fraction passes; passing is less than one vote below it); bounded vote histories through the real VotesWrapper/judgeVoteCount/commit, also across a real round-index change: every posted CommitEvent carries vote sets that reach their quorums.",
          "Trusted: gosym, z3. NOT covered: message caching, goroutines, credential checks of incoming votes. One open known finding (commit packs vote sets reduced by a later equivocation).",
          "solver-based symbolic execution of go/ssa (bv + FloatingPoint lemma)"),
- "C04": ("Control skeleton only: search on every monotone predicate; choose's branches with gonum's CDF as an unknown non-decreasing function (least-j quantile, 0<=j<=stake, mirrored branch); MakeM injectivity; VrfVerifySortition/VrfVerifyPriority bind key, message, stake, threshold/total and seat count under an idealised VRF; computePriority is the maximum per-seat hash, every seat with its own hash input up to committee-sized seat counts; the VRF's ProofToHash (group and hashes uninterpreted) takes its challenge over message point, key and VRF point.",
-         "Trusted: gosym, z3 (FloatingPoint + UF). NOT covered (the numeric heart): that gonum's float64 incomplete-beta CDF is the binomial CDF, float rounding, stakes beyond the small bound. One open known finding (zero-seat proposer).",
+ "C04": ("Control skeleton only: search on every monotone predicate; choose's branches with gonum's CDF as an unknown non-decreasing function (least-j quantile, 0<=j<=stake, mirrored branch); MakeM injectivity; VrfVerifySortition/VrfVerifyPriority bind key, message, stake, threshold/total and seat count under an idealised VRF; computePriority is the maximum per-seat hash, every seat with its own hash input up to committee-sized seat counts; the VRF's ProofToHash (group and hashes uninterpreted) takes its challenge over message point, key and VRF point; the node-level verifiers Server.verifyPriority / verifySortition accept only what the Vrf verifier accepted for exactly the message's fields and the message round's look-back data; the real SortitionManager (step-view cache) hands out, over every short history of round changes in any direction, the credential for the current look-back inputs.",
+         "Trusted: gosym, z3 (FloatingPoint + UF). NOT covered (the numeric heart): that gonum's float64 incomplete-beta CDF is the binomial CDF, float rounding, stakes beyond the small bound. Two open known findings (zero-seat proposer; a rejected credential of an old round / round index is let through by Server.verifySortition).",
          "solver-based symbolic execution of go/ssa with uninterpreted monotone CDF"),
- "C05": ("Real processDoubleSignV5/doPenalize/takePenalty on the real StateDB with an arbitrary well-typed evidence and BLS idealised behind the repo's interfaces with a signing oracle (honest: at most one hash per vote kind per round/index): honest safety, equivocation penalised once within the fraction and credited to the penalty account, takePenalty cap/conservation/non-negativity/consistency with delegations and pending withdrawals.",
+ "C05": ("Real processDoubleSignV5/doPenalize/takePenalty on the real StateDB with an arbitrary well-typed evidence and BLS idealised behind the repo's interfaces with a signing oracle (honest: at most one hash per vote kind per round/index): honest safety, equivocation penalised once within the fraction and credited to the penalty account, takePenalty cap/conservation/non-negativity/consistency with delegations and pending withdrawals; the validator set an evidence's signer index is resolved in is the one the round's voters are indexed in.",
          "Trusted: gosym, z3; BLS idealisation; one validator in the look-back set, two pairs. Re-inclusion of one evidence in two blocks is penalised at most once; an evidence is acted on wherever it stands in a block's list. Two open known findings (duplicate pair, cross-kind).",
          "solver-based symbolic execution of go/ssa (SMT Int mode) with uninterpreted signing oracle"),
- "C06": ("End-of-block staking kernels only: rewardsToPool, distributeRewards and the validator pass slashingAndRecoveringYouV5 (state and order of emitted logs) give the same result under every Go map / sync.Map iteration order; builder and importing node execute transactions with the same beneficiary and act on several confirmed evidences in the same order (self-composition on a Copy, executor forks over all orders); builder slashing vs importing node's replaySlashing of the written slash data for an arbitrary double-sign evidence.",
-         "Trusted: gosym, z3, StateDB.Copy (C10). NOT covered: whole-block determinism through EVM, RLP, tries, receipts, caches. One open known finding (zero-penalty expulsion not replayed).",
+ "C06": ("End-of-block staking kernels only: rewardsToPool, distributeRewards and the validator pass slashingAndRecoveringYouV5 (state and order of emitted logs) give the same result under every Go map / sync.Map iteration order; builder and importing node execute transactions with the same beneficiary and act on several confirmed evidences in the same order (self-composition on a Copy, executor forks over all orders); builder slashing vs importing node's replaySlashing of the written slash data for an arbitrary double-sign evidence; the process-wide code-size cache of the shared state database never changes an answer (every history of requests, arbitrary LRU eviction).",
+         "Trusted: gosym, z3, StateDB.Copy (C10). NOT covered: whole-block determinism through EVM, RLP, tries, receipts, the pastTries cache. One open known finding (zero-penalty expulsion not replayed).",
          "solver-based symbolic execution of go/ssa with map-order permutation and self-composition"),
  "C07": ("One inductive step per end-of-block value-moving kernel (blockRewards+rewardsToPool, distributeRewards, settleValidatorRewards, processWithdrawQueue) with a ghost sum over balances, reward accounts, role pools, residue, pending withdrawals and the block's fees; penalties are in C05, fee charging in C17 (whose staking-converter contract harness - reported gas = consumed gas - also runs here); the four value-moving take-effect handlers of staking actions conserve stake + withdraw queue + balances, and their submission side detains exactly the submitted amount.",
          "Trusted: gosym, z3 (non-linear Int, standalone fallback); online validators hold >= 1 stake unit; validator creation/update/status handlers and EVM transfers outside. One open known finding (forced settle loses rewards).",
@@ -32,20 +32,20 @@ CLAIMED = {
  "C09": ("Real Snapshot/RevertToSnapshot/Finalise/journal over a fake trie: every operation sequence of the bound follows a snapshot-stack model with both revision lists exact; mutate-then-revert restores every account and validator observable from an arbitrary small pre-state; a reverted frame leaves no trace in the committed content either (twin runs over a snapshot store, content reopened from the committed roots).",
          "Trusted: gosym, z3; roots after revert (hashing) outside; sequences of 6/7 operations, 2 accounts, 2 validators, 2 withdraw records. One open known finding (staking records not journalled).",
          "solver-based symbolic execution of go/ssa (bv + Int), bounded sequences and one-step inverse"),
- "C10": ("Copy half: a fresh StateDB.Copy is observationally equal to the original and one arbitrary mutation of either side never shows on the other (exact object identity in the executor); ValidatorIndex.List ordering for all sync.Map iteration orders. Reopen half: after arbitrary writes (accounts, storage, code; validators, delegation, withdraw queue) with transaction ends, intermediate roots and commits at arbitrary positions, the state reopened from the committed roots shows the live object's persistent content and that of a twin run that flushed only once (the work may continue on a Copy taken at a transaction boundary); staking records of a copy are equal and independent.",
+ "C10": ("Copy half: a fresh StateDB.Copy is observationally equal to the original and one arbitrary mutation of either side never shows on the other (exact object identity in the executor); ValidatorIndex.List ordering for all sync.Map iteration orders. Reopen half: after arbitrary writes (accounts, storage, code; validators, delegation, withdraw queue) with transaction ends, intermediate roots and commits at arbitrary positions, the state reopened from the committed roots shows the live object's persistent content and that of a twin run that flushed only once (the work may continue on a Copy taken at a transaction boundary); staking records of a copy are equal and independent; the real Trie's copy-on-write under the shallow copies StateDB.Copy takes (either side updated after the copy reads its own content).",
          "Trusted: gosym, z3; snapshot store behind the repo's Trie/Database interfaces (a root identifies the flushed content; 'same content => same root' rests on C13/C14); the codec is modelled as the identity on whole objects (fields dropped by custom EncodeRLP/DecodeRLP outside); EIP-158 view of existence. One open known finding (a copy taken mid-transaction does not finalise a pending self-destruct).",
          "solver-based symbolic execution of go/ssa (SMT Int mode) with map-order permutation"),
  "C12": ("Inductive step over the real VerifyYouVersionState with ghost state from every invariant-satisfying header and every valid 3-version parameter table (all symbolic); builder ProcessYouVersionState subset of verifier; chains of 3/4 headers through the real chain-level VerifyYouVersionState2 with the ghost computed from the history (no invariant assumed); VersionForRoundWithParents reads the parameters of the header 8 rounds back without leaving the batch.",
          "Trusted: gosym, z3; parameter tables restricted to the stated validity predicate; numbers < 2^40. One open known finding (late approval).",
          "solver-based symbolic execution of go/ssa (SMT Int mode), inductive invariant step"),
- "C13": ("Structural half: compact/hex key encodings on symbolic nibble strings, decodeNode on every byte string up to the bound (+ shaped full nodes), in-memory insert/delete/get against an association-list model and a canonical rebuild (history independence before hashing), also after commit+reopen with hash references resolved through the real simplifyNode/expandNode pair (incl. prefix keys / branch values); the hasher embeds exactly the nodes shorter than 32 bytes; proofs from the real Prove verify with the real VerifyProof to the stored value or absence; the real iterator returns exactly the surviving pairs, ascending.",
+ "C13": ("Structural half: compact/hex key encodings on symbolic nibble strings, decodeNode on every byte string up to the bound (+ shaped full nodes), in-memory insert/delete/get against an association-list model and a canonical rebuild (history independence before hashing), also after commit+reopen with hash references resolved through the real simplifyNode/expandNode pair (incl. prefix keys / branch values); the hasher embeds exactly the nodes shorter than 32 bytes; proofs from the real Prove verify with the real VerifyProof to the stored value or absence; the real iterator returns exactly the surviving pairs, ascending; a struct copy of a Trie is independent of its original under further updates.",
          "Trusted: gosym, z3; canonical nibble labelling (symmetry of the trie code under per-position relabelling). NOT covered: hashing/root value, byte-level proof encoding, the root value (keccak over reflection RLP), iterator order, the committer and disk format, node DB GC.",
          "solver-based symbolic execution of go/ssa (bv)"),
  "C14": ("Primitive layer: every byte string of the stated lengths through rlp.Split*/CountValues/readKind/readSize and Stream.Bytes/Uint/Raw/List; accept => canonical against an independent Yellow-Paper encoder; encoder heads for every 64-bit size; allocation bounded by input; the reflect-facing leaf decoders/writers (big.Int, uint64, []byte, string, bool) and the rlp:\"nil\" optional-pointer decoder on a minimal reflect model; the custom codec pairs of Validator / ValidatorsStat / ValidatorIndex round-trip every field; the consensus layer's entry points accept exactly one RLP value (codec entry points by contract over the real rlp.Split).",
          "Trusted: gosym incl. its minimal reflect model, z3. NOT covered: struct/list decoders, the type cache, the remaining custom EncodeRLP/DecodeRLP pairs and the other handlers built on them. One open known finding (nil tag accepts the empty list).",
          "solver-based symbolic execution of go/ssa (bv) over fully symbolic byte buffers"),
- "C15": ("Each computational opcode's real execute function (from the real Istanbul jump table) on arbitrary 256-bit operands with sentinel, shared intPool and aliasing checks; oracle = SMT-LIB 256-bit BV theory, or Yellow-Paper integer definitions (DIV/SDIV/MOD/SMOD/ADDMOD/MULMOD/EXP); EXP's dynamic gas = 10 + 50 per exponent byte.",
-         "Trusted: gosym incl. its big.Int model (520-bit two's complement / SMT Int), z3; EXP: full width for exponents <= 7/15, modulo 2^8 for sparse multi-limb exponents (2/3 limbs); memory/storage opcodes outside.",
+ "C15": ("Each computational opcode's real execute function (from the real Istanbul jump table) on arbitrary 256-bit operands with sentinel, shared intPool and aliasing checks; oracle = SMT-LIB 256-bit BV theory, or Yellow-Paper integer definitions (DIV/SDIV/MOD/SMOD/ADDMOD/MULMOD/EXP); EXP's dynamic gas = 10 + 50 per exponent byte; MSTORE / MSTORE8 / MLOAD through their jump-table entries on an arbitrary memory against a byte-array model (content everywhere, word-wise zero-filled expansion, quadratic expansion gas).",
+         "Trusted: gosym incl. its big.Int model (520-bit two's complement / SMT Int), z3; EXP: full width for exponents <= 7/15, modulo 2^8 for sparse multi-limb exponents (2/3 limbs); memory: 64 bytes + expansion, 6 offsets, 1/2 operations; storage and copy opcodes outside.",
          "solver-based symbolic execution of go/ssa, equivalence against bit-vector / integer specifications"),
  "C16": ("One call frame = the inductive step over call depth: real Call/CallCode/DelegateCall/StaticCall/create against a recording fake of vm.StateDB with the callee replaced by an arbitrary outcome: snapshot before every mutation, revert-to-that-snapshot last on failure, all gas burnt unless REVERT, refusals touch nothing and return the gas; one CALL-family instruction's gas forwarding and the frame-local static flag through the real interpreter; the real interpreter loop in read-only mode over all 256 opcode bytes of the real jump table.",
          "Trusted: gosym, z3; callee summary (mutates only through vm.StateDB, leaves gas <= given). NOT covered: whole multi-contract programs, SELFDESTRUCT burn; the journal itself is C09 (its committed-view twin harness also runs here).",
